@@ -80,6 +80,7 @@ def judge(chk, drive, jobs, module, cfg, nshards, tags_wanted, shard_key=None, h
                 chk.report(k + " (history-dependent)", "%s: only after the %d calls made before it in the same process" % (k, len(prefix) - 1),
                            dict(jobs=prefix, expect=why, last_only=True))
                 owners[idx] = None
+                continue
             ev = sub[idx]
             what = describe(ev, why) if describe else "%s: content=%r -> %s" % (k, bytes(ev["content"])[:40], why)
             chk.report(k, what, dict(jobs=rjobs[max(0, idx - 1):idx + 1] if why.startswith("pattern-depends") else [rjobs[idx]], expect=why))
@@ -134,7 +135,18 @@ def judge_multi(chk, drive, jobs, tags_wanted, nshards=14, describe=None, timeou
         sub = vlib.run_drive(drive, rjobs, chk.work, name="repro")
         _, bad2, _, _ = vlib.validate_traces(chk.work, mod, mod + ".cfg", [sub], heap=HEAP[mod], timeout=timeout)
         if (len(rjobs), b["why"]) not in {(x["l"], x["why"]) for x in bad2}:
-            raise vlib.Inconclusive("unreproduced rejection: %s" % k)
+            # not reproducible alone: state shared by the calls made before it in the same process. Replay the whole prefix of the original
+            # run (all families) in a fresh process and validate only the event in question.
+            prefix = [strip(e) for e in evs if e["i"] <= ev["i"]]
+            for j in prefix[:-1]:
+                j["proj"] = "outcome"
+            sub2 = vlib.run_drive(drive, prefix, chk.work, name="repro-prefix")
+            _, bad3, _, _ = vlib.validate_traces(chk.work, mod, mod + ".cfg", [sub2[-1:]], heap=HEAP[mod], timeout=timeout)
+            if (1, b["why"]) not in {(x["l"], x["why"]) for x in bad3}:
+                raise vlib.Inconclusive("unreproduced rejection: %s" % k)
+            chk.report(k + " (history-dependent)", "%s: only after the %d calls made before it in the same process" % (k, len(prefix) - 1),
+                       dict(jobs=prefix, expect=b["why"], module=mod, last_only=True))
+            continue
         what = describe(sub[-1], b["why"]) if describe else "%s: content=%r -> %s" % (k, bytes(ev["content"])[:40], b["why"])
         chk.report(k, what, dict(jobs=rjobs, expect=b["why"], module=mod))
     return evs, allextras
@@ -151,9 +163,10 @@ def replay_generic(prop, path, module, cfg, heap="3g"):
     chk = vlib.Check(prop, "quick")
     drive = vlib.build_harness(chk.work)
     evs = vlib.run_drive(drive, r["jobs"], chk.work)
-    _, bad, _, _ = vlib.validate_traces(chk.work, module, cfg, [evs], heap=heap)
     if r.get("last_only"):
         _, bad, _, _ = vlib.validate_traces(chk.work, module, cfg, [evs[-1:]], heap=heap)
+    else:
+        _, bad, _, _ = vlib.validate_traces(chk.work, module, cfg, [evs], heap=heap)
     hit = [b for b in bad if b["why"] == r.get("expect", b["why"])]
     for b in hit:
         print("REPRODUCED l=%d why=%s %s" % (b["l"], b["why"], key_of(b["event"], b["why"])))
